@@ -104,10 +104,10 @@ impl TlsHandshaker {
         let config = self.client_config()?;
         let mut session = ClientConnection::new(config, domain)?;
 
-        while let Err(err) = session.complete_io(&mut stream) {
-            if err.kind() != io::ErrorKind::WouldBlock || !session.is_handshaking() {
-                return Err(err.into());
-            }
+        // The stream is a blocking one: `WouldBlock` means that its read timeout expired while the peer
+        // was silent. Retrying would wait for such a peer for ever.
+        if let Err(err) = session.complete_io(&mut stream) {
+            return Err(err.into());
         }
 
         Ok(TlsStream {
